@@ -517,6 +517,38 @@ def r13(ctx: Ctx, rid: str = "C10.R13") -> None:
                 v = dn.ast.targets[0].id
                 # the initial `= None` declaration is not an int constant; a second constant needs the null fact
                 known_null = any(pol == "null" and isinstance(e, ast.Name) and e.id == v for pol, e, _at in facts_at(ctx, f, dn))
+                if not known_null:
+                    # the default-then-overwrite form: `v = 0` followed by `if <resolved> is not None: v, _ = <resolved>` - the
+                    # constant reaches the numbering only along an edge that says the resolved version is None
+                    def _targets(a_: ast.AST) -> Set[str]:
+                        return {x.id for t_ in getattr(a_, "targets", []) for x in ast.walk(t_) if isinstance(x, ast.Name)}
+                    kills = [k.id for k in g.nodes if k.id != d and k.kind == "stmt" and isinstance(k.ast, ast.Assign) and v in _targets(k.ast)]
+                    null_edges: Set[Tuple[int, int]] = set()
+                    for b in g.nodes:
+                        if b.kind != "branch" or b.ast is None:
+                            continue
+                        t_ = b.ast
+                        neg = False
+                        while isinstance(t_, ast.UnaryOp) and isinstance(t_.op, ast.Not):
+                            neg, t_ = not neg, t_.operand
+                        x_ = None
+                        lab = None
+                        if isinstance(t_, ast.Compare) and len(t_.ops) == 1 and isinstance(t_.left, ast.Name) \
+                                and isinstance(t_.comparators[0], ast.Constant) and t_.comparators[0].value is None \
+                                and isinstance(t_.ops[0], (ast.Is, ast.IsNot)):
+                            x_, lab = t_.left.id, isinstance(t_.ops[0], ast.Is) != neg
+                        if x_ is None:
+                            continue
+                        bo = sl.origins(ast.Name(id=x_, ctx=ast.Load()), b.id)
+                        if not any(isinstance(c, ast.Call) and (dotted(c.func) or "").split(".")[-1] in
+                                   ("_current_version_info", "_parse_hint_content") for c in bo["calls"]):
+                            continue
+                        for dst, l_ in g.succ[b.id]:
+                            if l_ == ("true" if lab else "false"):
+                                null_edges.add((b.id, dst))
+                    if null_edges and d != n.id:
+                        w_ = find_path(g, d, [n.id], avoid=kills, labels=NORMAL, edge_ok=lambda s_, d_, l_: (s_, d_) not in null_edges)
+                        known_null = w_ is None
                 ctx.ob(rid, f, "the constant start version is used only when nothing was resolved", dn, known_null,
                        f"`{dn.text}` under `{v} is None`: an unconditional / inverted reset numbers every commit v1 - after a lost "
                        "pointer recovery can no longer tell the latest version from any other")
